@@ -42,6 +42,12 @@ def run_table(tier, seed):
                 out.append({"t": "run", "spec": spec, "cfg": {"penalty": pen, "control": ctl, "iteration_limit": 80, "params": {"rho": 1e-3}}, "sc": None})
             for vi in range(len(G.PARAM_VARIANTS)):
                 out.append({"t": "run", "spec": spec, "cfg": {"penalty": pen, "iteration_limit": 80, "params": {"rho": 1e-3}, "pv": vi}, "sc": None})
+    # penalties of ordinary and large size from the start (1, 10, 1e3)
+    for spec in specs[:3]:
+        for pen in G.R.PENALTIES:
+            for rho0 in (1.0, 10.0, 1e3):
+                for ctl in ("DistanceRatio", "Fixed"):
+                    out.append({"t": "run", "spec": spec, "cfg": {"penalty": pen, "control": ctl, "iteration_limit": 80, "params": {"rho": rho0}}, "sc": None})
     # long runs (thousands of accepted steps): every policy, fixed small steps
     for pen in G.R.PENALTIES:
         out.append({"t": "run", "spec": specs[0], "cfg": {"penalty": pen, "control": "Fixed", "iteration_limit": 4000 if tier == "quick" else 12000,
